@@ -45,14 +45,12 @@ Definition field_lines (pkg parent : bytes) (in_oneof : bool) (i : N) (f : ofiel
        match f_tenant f with Some t => t | None => [] end;
        match f_foreign f with Some p => fst p | None => [] end;
        match f_foreign f with Some p => snd p | None => [] end],
-      (* an optional array / map: the linked descriptor keeps the field in its (synthetic) oneof but
-         not the proto3_optional flag (label repeated) — what protodesc.NewFiles then rejects *)
       [i; pt; b2n (f_repeated f); b2n (f_required f); b2n (f_flatten f);
-       b2n (in_oneof || (f_optional f && f_repeated f));
+       b2n in_oneof;
        b2n (f_primary f); b2n (match f_tenant f with Some _ => true | None => false end);
        b2n (match f_filter f with Some _ => true | None => false end);
        b2n (match f_foreign f with Some _ => true | None => false end);
-       b2n (f_optional f && negb (f_repeated f))])
+       b2n (f_optional f)])
   :: match f_filter f with Some l => [(3, l, [])] | None => [] end.
 
 Fixpoint fields_lines (pkg parent : bytes) (in_oneof : bool) (i : N) (l : list ofield) : list line :=
@@ -105,7 +103,7 @@ Definition enum_lines (pkg name : bytes) (vs : list (bytes * N)) : list line :=
 
 (* 6: service [full name; annotation strings; audience/default auth (always none: acceptCommands
       replaces the options a command declares)] [file; annotation kind; role]
-   7: method [name; input; output; path] [verb; state_query flag] *)
+   7: method [name; input; output; path; http body] [verb; state_query flag] *)
 Definition svc_lines (pkg : bytes) (file : N) (s : osvc) : list line :=
   let fp := file_pkg pkg file in
   let abs (n : bytes) := match n with 46 :: r => r | _ => fp ++ [46] ++ n end in
@@ -114,7 +112,10 @@ Definition svc_lines (pkg : bytes) (file : N) (s : osvc) : list line :=
    | SCommand en => (6, [fp ++ [46] ++ sv_name s; en; []; []], [file; 2; 0])
    | STopic tn role en => (6, [fp ++ [46] ++ sv_name s; tn; en; []], [file; 3; role])
    end)
-  :: map (fun m => (7, [mt_name m; abs (mt_in m); abs (mt_out m); mt_path m], [mt_verb m; mt_sq m]))
+  (* the http rule's body: "*" for every verb but GET (visitServiceMethodNode); none for topic methods *)
+  :: map (fun m => (7, [mt_name m; abs (mt_in m); abs (mt_out m); mt_path m;
+                        if (mt_verb m =? 0) || (mt_verb m =? 1) then [] else [42]],
+                       [mt_verb m; mt_sq m]))
          (sv_methods s).
 
 (* per file: messages, then enums, then services — the order of a FileDescriptorProto *)
@@ -173,7 +174,7 @@ Definition c17_check (c : c17case) : bool :=
                  && (negb cok || (list_eqb line_eqb (flat_map (fun e => client_lines (client_view e)) es) clines
                                   && grouping_ok es cs))
       | Err s => negb ok && (err_class s =? errc)
-      | Panic _ => negb ok && (errc =? 100)      (* the real compiler panicked *)
+      | Panic _ => negb ok && (errc =? 100)      (* the real compiler panicked (the model never says so) *)
       | _ => false
       end
   end.
